@@ -223,3 +223,15 @@ impl CodeCache {
     }
   }
 }
+
+#[cfg(gb_dynarec_verif)]
+impl CodeCache {
+  pub fn verif_entries(&self) -> Vec<(u8, u16, u16, usize, usize, usize)> {
+    self.code_blocks.verif_entries()
+  }
+
+  /// Bytes of the translation arena not yet written
+  pub fn verif_space_remaining(&self) -> usize {
+    self.exec_memory.get_memory_area().len() - self.write_cursor
+  }
+}
